@@ -58,13 +58,21 @@ impl CopyToFileExecutor {
             } => csv::WriterBuilder::new()
                 .delimiter(delimiter as u8)
                 .quote(quote as u8)
+                // a distinct ESCAPE character replaces quote doubling, as the reader expects
+                .double_quote(escape.is_none_or(|e| e == quote))
                 .escape(escape.unwrap_or(quote) as u8)
                 .has_headers(header)
                 .from_writer(file),
         };
+        // csv escapes the quote but not the escape character itself: double it here
+        let FileFormat::Csv { quote, escape, .. } = format;
+        let escaped = |s: String| match escape.filter(|e| *e != quote) {
+            Some(e) => s.replace(e, &format!("{e}{e}")),
+            None => s,
+        };
         // `has_headers` only concerns serde serialization: the header record is written here.
         if matches!(format, FileFormat::Csv { header: true, .. }) {
-            writer.write_record(&column_names)?;
+            writer.write_record(column_names.into_iter().map(escaped))?;
         }
 
         let mut rows = 0;
@@ -72,7 +80,7 @@ impl CopyToFileExecutor {
         while let Some(chunk) = recver.blocking_recv() {
             for i in 0..chunk.cardinality() {
                 // TODO(wrj): avoid dynamic memory allocation (String)
-                let row = chunk.arrays().iter().map(|a| a.get_to_string(i));
+                let row = chunk.arrays().iter().map(|a| escaped(a.get_to_string(i)));
                 writer.write_record(row)?;
             }
             writer.flush()?;
